@@ -61,6 +61,15 @@ class Gen:
                 self.ops.append(f"pipe_add {peer_ok if r.chance(9, 10) else r.choice(['0050', '0051', '0010', '0031'])}")
                 self.npipes += 1
             elif k < 14 and self.npipes:
+                if self.kind == "pull" and self.npipes >= 2 and r.chance(1, 2):
+                    # messages parked on several pipes, then one of them goes away: the others' messages stay receivable
+                    # (seeded C15-7A: readable flag cleared when the head of the pending list closes)
+                    for q in range(self.npipes):
+                        if r.chance(2, 3):
+                            self.ops.append(f"recv_done {q} {self.body()}")
+                    self.ops.append(f"pipe_drop {r.below(self.npipes)}")
+                    self.ops.append("poll")
+                    continue
                 self.ops.append(f"pipe_drop {r.below(self.npipes)}")
             elif k < 40:
                 a = self.aio()
